@@ -11,7 +11,9 @@
 //!   C28 read mode=<sync|async> <settings> <env> a=<asset>
 //!   C28 sign mode=… <settings> <env> tsa=<0|1> sr=<signer responders> ss=<stapled> a=<asset;asset…|>
 //! settings: rf of sf so at sk sc va di; env: mr or tr (ok|nf|err);
-//! asset: `<embedded claims|-|!>|<hex xmp url|->|<remote claims|->|<parent><explicit>`,
+//! asset: `<embedded claims|-|!>|<hex xmp url|->|<remote claims|->|<parent><explicit><urlcrate><uriok>`
+//! (urlcrate: the `url` crate parses the reference as http(s) URL — the model consults it only for
+//! hosts that need IPv6 / percent-decoding / IDNA; uriok: `http::Request::get(reference)` builds),
 //! claim: `r<responders>s<stapled>c<certificate id>[a][p][t]` (a: has certificate-status assertions,
 //! p: one of them is usable for its own certificate, t: time-stamped).
 //!   C28 quiet kind=<read|import> mode=… n=<fixture file>      (everything disabled; model: `trace=-`)
@@ -511,6 +513,9 @@ struct Sg {
     cert: usize,
     /// 0 nothing stapled, 1 stapled but unusable, 2 stapled and usable
     stapled: u8,
+    /// None: a signer object handed to `sign`; Some(t): the signer the Context builds from
+    /// `signer.local` + `cawg_x509_signer.local` settings, t = `cawg_x509_signer.local.tsa_url` is set
+    cawg: Option<bool>,
 }
 
 #[derive(Clone, Copy, Debug, PartialEq, Eq, Hash, PartialOrd, Ord)]
@@ -524,6 +529,9 @@ enum Op {
     Import2,
     /// intent Edit with the asset as source: the SDK adds it as parent ingredient
     Edit,
+    /// sign a plain source with the signer the Context builds from its settings
+    /// (`signer.local` + `cawg_x509_signer.local`), `Builder::save_to_stream`
+    SignSettings,
 }
 
 struct Asset {
@@ -546,14 +554,28 @@ impl Asset {
         // independent statement: the reference is an absolute http(s) URL
         self.xmp.as_ref().is_some_and(|u| url::Url::parse(u).is_ok_and(|p| p.scheme() == "http" || p.scheme() == "https"))
     }
+    /// `http::Request::get(reference)` can be built; the URI as the request will show it
+    fn request_uri(&self) -> Option<String> {
+        self.xmp.as_ref().and_then(|u| Request::get(u.as_str()).body(()).ok()).map(|r| r.uri().to_string())
+    }
+    /// independent of the `url` crate: after trimming C0 controls / space and dropping tab, LF, CR
+    /// the reference starts with `http:` or `https:` (ASCII case-insensitive)
+    fn looks_http(&self) -> bool {
+        self.xmp.as_ref().is_some_and(|u| {
+            let s: String = u.trim_matches(|c: char| c <= ' ').chars().filter(|c| !matches!(c, '\t' | '\n' | '\r')).collect::<String>().to_ascii_lowercase();
+            s.starts_with("http:") || s.starts_with("https:")
+        })
+    }
     fn model(&self, parent: bool, explicit: bool) -> String {
         format!(
-            "{}|{}|{}|{}{}",
+            "{}|{}|{}|{}{}{}{}",
             self.emb,
             self.xmp.as_ref().map_or("-".to_string(), |u| hex::encode(u.as_bytes())),
             self.rem,
             parent as u8,
-            explicit as u8
+            explicit as u8,
+            (self.xmp.is_none() || self.valid_remote()) as u8,
+            (self.xmp.is_none() || self.request_uri().is_some()) as u8
         )
     }
     /// could any setting make this asset cause a request
@@ -622,6 +644,7 @@ fn err_class(e: &c2pa::Error) -> String {
         c2pa::Error::JumbfNotFound => "err:JumbfNotFound".into(),
         c2pa::Error::TooManyManifestStores => "err:Embedded".into(),
         c2pa::Error::AssertionEncoding(_) => "err:AssertionEncoding".into(),
+        c2pa::Error::HttpError(_) => "err:HttpError".into(),
         c2pa::Error::OtherError(m) if m.to_string().starts_with("timestamp token not found") => "err:TimestampAssertion".into(),
         other => {
             let d = format!("{other:?}");
@@ -666,6 +689,31 @@ fn exec(w: &World, op: Op, is_async: bool, s: &S, sg: &Sg, assets: &[&Asset]) ->
             } else {
                 Reader::from_context(ctx).with_stream(a.fmt, cur)
             };
+            Ok(Outcome { res: r.map(|_| "ok".to_string()).unwrap_or_else(|e| err_class(&e)), ings: vec![] })
+        }
+        Op::SignSettings => {
+            let pem = |n: &str| std::fs::read_to_string(w.pki.dir.join(n)).unwrap_or_default();
+            let local = |cert: usize, tsa: bool| {
+                let n = CERTS[cert].0;
+                let mut l = serde_json::json!({"alg": "es256", "sign_cert": pem(&format!("{n}.chain.pem")), "private_key": pem(&format!("{n}.pk8"))});
+                if tsa {
+                    l["tsa_url"] = serde_json::json!(w.tsa_url());
+                }
+                serde_json::json!({ "local": l })
+            };
+            let mut j: serde_json::Value = serde_json::from_str(&s.json()).expect("json");
+            j["trust"] = serde_json::json!({"trust_anchors": w.root_pem});
+            j["signer"] = local(sg.cert, sg.tsa);
+            j["cawg_x509_signer"] = local(2, sg.cawg == Some(true));
+            let ctx = Context::new()
+                .with_settings(j.to_string().as_str())?
+                .with_resolver(Recorder(w.sh.clone()))
+                .with_resolver_async(Recorder(w.sh.clone()));
+            let fmt = "image/jpeg";
+            let mut b = Builder::from_context(ctx).with_definition(definition("c28", fmt).as_str())?;
+            let mut out = Cursor::new(Vec::new());
+            let mut input = Cursor::new(w.src(fmt).as_ref().clone());
+            let r = b.save_to_stream(fmt, &mut input, &mut out);
             Ok(Outcome { res: r.map(|_| "ok".to_string()).unwrap_or_else(|e| err_class(&e)), ings: vec![] })
         }
         Op::Sign | Op::Import { .. } | Op::Import2 | Op::Edit => {
@@ -718,6 +766,20 @@ fn exec(w: &World, op: Op, is_async: bool, s: &S, sg: &Sg, assets: &[&Asset]) ->
     }
 }
 
+/// like `ev_token`, but a request whose URI is exactly what `http::Request::get(reference)` makes
+/// of the reference of one of the operation's assets is the manifest request for that reference
+/// (references that do not look like `…/m/…`: `http:host`, userinfo, other hosts)
+fn ev_token_for(w: &World, e: &Ev, assets: &[&Asset]) -> String {
+    if let Ev::Ctx(_, uri) = e {
+        for a in assets {
+            if a.xmp.is_some() && a.request_uri().as_deref() == Some(uri.as_str()) {
+                return format!("m:{}", hex::encode(a.xmp.as_ref().unwrap().to_ascii_lowercase().as_bytes()));
+            }
+        }
+    }
+    ev_token(w, e)
+}
+
 fn ev_token(w: &World, e: &Ev) -> String {
     match e {
         Ev::Ctx(_, uri) => {
@@ -754,18 +816,20 @@ fn one(run: &mut Run, w: &World, seen: &mut BTreeSet<String>, op: Op, is_async: 
         Op::Import { explicit } => ("sign", false, explicit),
         Op::Import2 => ("sign", false, false),
         Op::Edit => ("sign", true, false),
+        Op::SignSettings => ("sign", false, false),
     };
-    let amodel = if op == Op::Sign { String::new() } else { assets.iter().map(|a| a.model(parent, explicit)).collect::<Vec<_>>().join(";") };
+    let amodel = if matches!(op, Op::Sign | Op::SignSettings) { String::new() } else { assets.iter().map(|a| a.model(parent, explicit)).collect::<Vec<_>>().join(";") };
     let names = assets.iter().map(|a| a.name.as_str()).collect::<Vec<_>>().join("+");
     let req = if op == Op::Read {
         format!("C28 read mode={mode} {} {} a={} n={names}", s.line(), env.line(), amodel)
     } else {
         format!(
-            "C28 {opname} mode={mode} kind={} {} {} tsa={} sr={} ss={} sc2={} a={} n={names}",
+            "C28 {opname} mode={mode} kind={} {} {} tsa={} sr={} ss={} sc2={} ctsa={} a={} n={names}",
             match op {
                 Op::Sign => "sign",
                 Op::Import { .. } => "import",
                 Op::Import2 => "import2",
+                Op::SignSettings => "settings-signer",
                 _ => "edit",
             },
             s.line(),
@@ -774,6 +838,11 @@ fn one(run: &mut Run, w: &World, seen: &mut BTreeSet<String>, op: Op, is_async: 
             CERTS[sg.cert].1,
             sg.stapled,
             sg.cert,
+            match sg.cawg {
+                None => "-",
+                Some(false) => "0",
+                Some(true) => "1",
+            },
             amodel
         )
     };
@@ -786,7 +855,8 @@ fn one(run: &mut Run, w: &World, seen: &mut BTreeSet<String>, op: Op, is_async: 
     // a request that bypasses the resolver is logged by the listener thread before it answers,
     // i.e. before the SDK call returns
     let evs = w.drain();
-    let toks: Vec<String> = evs.iter().map(|e| ev_token(w, e)).collect();
+    let no_assets: &[&Asset] = &[];
+    let toks: Vec<String> = evs.iter().map(|e| ev_token_for(w, e, if matches!(op, Op::Sign | Op::SignSettings) { no_assets } else { assets })).collect();
     let trace = if toks.is_empty() { "-".to_string() } else { toks.join(",") };
     let (res, ings, panicked) = match r {
         Ok(Ok(o)) => (o.res, o.ings, None),
@@ -805,13 +875,17 @@ fn one(run: &mut Run, w: &World, seen: &mut BTreeSet<String>, op: Op, is_async: 
         Op::Import { .. } => "import",
         Op::Import2 => "import2",
         Op::Edit => "edit",
+        Op::SignSettings => "settings-signer",
     }));
+    if op == Op::Read && assets[0].name.starts_with("urlform-") {
+        run.count(&format!("urlform:url-crate-{}:http-uri-{}", if assets[0].valid_remote() { "accepts" } else { "rejects" }, if assets[0].request_uri().is_some() { "accepts" } else { "rejects" }));
+    }
     run.count(&format!("result:{}", res.split(':').take(2).collect::<Vec<_>>().join(":")));
     run.count(&format!("requests:{}", toks.len().min(6)));
     for t in &toks {
         run.count(&format!("request-kind:{}", &t[..1]));
     }
-    if op != Op::Sign && assets.iter().any(|a| a.network_capable()) || sg.tsa && op != Op::Read || (op != Op::Read && CERTS[sg.cert].1 > 0) {
+    if !matches!(op, Op::Sign | Op::SignSettings) && assets.iter().any(|a| a.network_capable()) || sg.tsa && op != Op::Read || (op != Op::Read && CERTS[sg.cert].1 > 0) {
         run.nontrivial(req);
     }
 
@@ -825,26 +899,34 @@ fn one(run: &mut Run, w: &World, seen: &mut BTreeSet<String>, op: Op, is_async: 
     }
     for t in toks.iter().filter(|t| t.starts_with("m:")) {
         let u = String::from_utf8_lossy(&hex::decode(&t[2..]).unwrap_or_default()).to_string();
-        let referencing: Vec<&&Asset> = if op == Op::Sign { vec![] } else { assets.iter().filter(|a| a.xmp.as_ref().is_some_and(|x| x.to_ascii_lowercase() == u)).collect() };
+        let referencing: Vec<&&Asset> = if matches!(op, Op::Sign | Op::SignSettings) { vec![] } else { assets.iter().filter(|a| a.xmp.as_ref().is_some_and(|x| x.to_ascii_lowercase() == u)).collect() };
         if referencing.is_empty() {
             run.fail(idx, "remote-fetch-unreferenced-url", format!("manifest request for {u}, which no asset of the operation references"));
         } else if referencing.iter().all(|a| a.has_embedded()) {
             run.fail(idx, "remote-fetch-despite-embedded", format!("manifest request for {u} although the asset referencing it carries an embedded manifest: {trace}"));
         } else if referencing.iter().all(|a| !a.valid_remote()) {
             run.fail(idx, "remote-fetch-of-non-http-reference", format!("manifest request for {u}, which is not an absolute http(s) URL: {trace}"));
+        } else if referencing.iter().all(|a| !a.looks_http()) {
+            run.fail(idx, "remote-fetch-of-non-http-scheme", format!("manifest request for {u:?}, whose scheme (after the trimming of the URL parser) is neither http nor https: {trace}"));
         }
     }
     let m_count = toks.iter().filter(|t| t.starts_with("m:")).count();
     let fetchable = assets.iter().filter(|a| !a.has_embedded() && a.valid_remote()).count();
-    if op != Op::Sign && m_count > fetchable {
+    if !matches!(op, Op::Sign | Op::SignSettings) && m_count > fetchable {
         run.fail(idx, "remote-fetch-repeated", format!("{m_count} manifest request(s) but only {fetchable} asset(s) of the operation lack an embedded manifest and carry an http(s) reference: {trace}"));
     }
-    let status_fetch_on = s.sf != 0 && s.so != 0 && !matches!(op, Op::Read | Op::Sign);
+    let status_fetch_on = s.sf != 0 && s.so != 0 && !matches!(op, Op::Read | Op::Sign | Op::SignSettings);
     if any("o") && !s.of && !status_fetch_on {
         run.fail(idx, "ocsp-fetch-while-disabled", format!("an OCSP responder was queried although verify.ocsp_fetch=false and no certificate-status fetch is configured: {trace}"));
     }
-    if (any("t") || any("T")) && (!sg.tsa || op == Op::Read) {
+    if (any("t") || any("T")) && ((!sg.tsa && sg.cawg != Some(true)) || op == Op::Read) {
         run.fail(idx, "tsa-request-without-tsa-url", format!("a time-stamp request was sent although the signer names no time authority: {trace}"));
+    }
+    // a reference the URL parser rejects, or whose scheme is not http(s), is never reported as a remote manifest URL
+    if let Some(h) = res.strip_prefix("err:RemoteManifestUrl:") {
+        if !matches!(op, Op::Sign | Op::SignSettings) && !assets.iter().any(|a| a.xmp.as_ref().is_some_and(|x| hex::encode(x.as_bytes()) == h) && a.looks_http() && !a.has_embedded()) {
+            run.fail(idx, "remote-manifest-url-error-for-non-http-reference", format!("RemoteManifestUrl({:?}) although no asset of the operation without embedded manifest references such an http(s) URL", String::from_utf8_lossy(&hex::decode(h).unwrap_or_default())));
+        }
     }
     if any("t") && !(s.at || explicit) {
         run.fail(idx, "timestamp-assertion-request-while-disabled", format!("a time-stamp assertion request was sent although auto_timestamp_assertion is disabled and Builder::add_timestamp was not called: {trace}"));
@@ -858,7 +940,7 @@ fn one(run: &mut Run, w: &World, seen: &mut BTreeSet<String>, op: Op, is_async: 
     if any("x:") {
         run.fail(idx, "unexpected-request", format!("request to a URL that is neither a referenced manifest, the certificate's OCSP responder nor the TSA: {trace}"));
     }
-    if !s.rf && !matches!(op, Op::Sign) {
+    if !s.rf && !matches!(op, Op::Sign | Op::SignSettings) {
         for (k, a) in assets.iter().enumerate() {
             if !a.has_embedded() && a.valid_remote() {
                 let url = a.xmp.clone().unwrap();
@@ -1021,7 +1103,173 @@ fn build_asset(w: &World, fmt: &'static str, remote: Option<&str>, no_embed: boo
     Ok((out.into_inner(), m))
 }
 
-fn make_assets(w: &World, run: &mut Run) -> Vec<Asset> {
+/// XML attribute value (double-quoted) holding `s`; tab, LF, CR and other controls as character references
+fn xml_attr_escape(s: &str) -> String {
+    let mut o = String::new();
+    for c in s.chars() {
+        match c {
+            '&' => o.push_str("&amp;"),
+            '<' => o.push_str("&lt;"),
+            '>' => o.push_str("&gt;"),
+            '"' => o.push_str("&quot;"),
+            c if (c as u32) < 0x20 => o.push_str(&format!("&#{};", c as u32)),
+            c => o.push(c),
+        }
+    }
+    o
+}
+
+/// every occurrence of `old` replaced by `new` (same length); None when there is none
+fn patch_bytes(bytes: &[u8], old: &[u8], new: &[u8]) -> Option<Vec<u8>> {
+    assert_eq!(old.len(), new.len());
+    let mut out = bytes.to_vec();
+    let (mut i, mut hits) = (0, 0);
+    while i + old.len() <= out.len() {
+        if &out[i..i + old.len()] == old {
+            out[i..i + old.len()].copy_from_slice(new);
+            hits += 1;
+            i += old.len();
+        } else {
+            i += 1;
+        }
+    }
+    (hits > 0).then_some(out)
+}
+
+/// (prefix, pad character, suffix): the reference is prefix + pad* + suffix. First the fixed forms,
+/// then `n_random` random compositions of the same building blocks with an occasional stray character.
+static N_FIXED_URL_FORMS: std::sync::atomic::AtomicU32 = std::sync::atomic::AtomicU32::new(0);
+
+fn url_forms(base: &str, rng: &mut Rng, n_random: usize) -> Vec<(String, Option<char>, String)> {
+    let a = base.strip_prefix("http://").unwrap_or(base).to_string(); // 127.0.0.1:port
+    let port = a.rsplit(':').next().unwrap_or("80").to_string();
+    let mut f: Vec<(String, Option<char>, String)> = vec![];
+    let mut p = |pre: String, suf: &str| f.push((pre, Some('x'), suf.to_string()));
+    // accepted although not of the form scheme://host/path
+    p(format!("http:/{a}/m/"), ".c2pa");
+    p(format!("http:{a}/m/"), ".c2pa");
+    p("http:localhost".to_string(), "");
+    p(format!(" http://{a}/m/"), ".c2pa");
+    p(format!("\t\n http://{a}/m/"), ".c2pa");
+    p(format!("http://{a}/m/"), ".c2pa \r\n");
+    p(format!("\u{1}\u{1f} http://{a}/m/"), ".c2pa\u{2}");
+    p(format!("ht\ttp://{a}/m/"), ".c2pa");
+    p(format!("http:/\n/{a}/m/"), ".c2pa");
+    p(format!("http://127.0\r.0.1:{port}/m/"), ".c2pa");
+    p(format!("http://{a}/m/\t"), ".c2pa");
+    p(format!("http://127.0.0.1:\t{port}/m/"), ".c2pa");
+    p(format!("http:///{a}/m/"), ".c2pa");
+    p(format!("http:\\\\{a}\\m\\"), ".c2pa");
+    p(format!("http:/\\{a}/m/"), ".c2pa");
+    p(format!("http://{a}\\m\\"), ".c2pa");
+    p(format!("HTTP://{a}/m/"), ".c2pa");
+    p(format!("hTtPs://{a}/m/"), ".c2pa");
+    p(format!("https:{a}/m/"), ".c2pa");
+    p(format!("HtTp:{a}/m/"), ".c2pa");
+    p(format!("http://{a}?"), "");
+    p(format!("http://{a}#"), "");
+    // userinfo
+    p(format!("http://u:p@{a}/m/"), ".c2pa");
+    p(format!("http://@{a}/m/"), ".c2pa");
+    p(format!("http://u@h:1@{a}/m/"), ".c2pa");
+    p("http://@/m/".to_string(), "");
+    p("http://a:b@/m/".to_string(), "");
+    p("http://@".to_string(), "");
+    p("http://u@".to_string(), "@localhost/m");
+    // empty host
+    f.push(("http:".to_string(), Some('/'), String::new()));
+    f.push(("http:\\".to_string(), Some('\\'), String::new()));
+    let mut p = |pre: String, suf: &str| f.push((pre, Some('x'), suf.to_string()));
+    p("http://?".to_string(), "");
+    p("http://#".to_string(), "");
+    p("http://:80/m/".to_string(), "");
+    p("https:///?".to_string(), "");
+    // ports
+    p("http://127.0.0.1:65535/m/".to_string(), "");
+    p("http://127.0.0.1:65536/m/".to_string(), "");
+    p("http://127.0.0.1:00080/m/".to_string(), "");
+    p("http://127.0.0.1:0000000000000000000065535/m/".to_string(), "");
+    p("http://127.0.0.1:/m/".to_string(), "");
+    p("http://127.0.0.1:8a/m/".to_string(), "");
+    p("http://127.0.0.1: 80/m/".to_string(), "");
+    p("http://127.0.0.1:0x50/m/".to_string(), "");
+    p("http://127.0.0.1:-1/m/".to_string(), "");
+    p("http://127.0.0.1:80:80/m/".to_string(), "");
+    p("http://127.0.0.1:80?".to_string(), "");
+    p("http://127.0.0.1:80\\".to_string(), "");
+    // IPv4 notations
+    for (h, _) in [
+        ("0x7f.1", true), ("127.1", true), ("1.2.3.4.5", false), ("localhost.1", false), ("256.0.0.1", false), ("127.0.0.256", false), ("127.0.0.1.", true), ("0177.0.0.01", true),
+        ("09.0.0.1", false), ("4294967296", false), ("4294967295", true), ("2130706433", true), ("0x", true), ("127.0.0x", true), ("0X7F.1", true), ("1..2", false), ("127.0.0.1..", true),
+        ("a.0x1g", true), ("127.0.65536", false), ("127.0.65535", true), ("127.16777216", false), ("127.16777215", true), ("0x100000000", false), ("0xffffffff", true), ("00000000000000000000000000177.1", true),
+        ("1.2.3.4.", true), ("1.2.3.4.5.", false), (".1", false), ("1.", true), ("0x.0x.0x.0x", true), ("08", false), ("0x7f.0x0.0x0.0x1", true), ("999999999999999999999", false), ("localhost.", true), ("localhost..", true), (".", true), ("..", true),
+    ] {
+        p(format!("http://{h}/m/"), "");
+        p(format!("https://u@{h}:{port}/m/"), "");
+    }
+    // forbidden host code points and their neighbours
+    for c in [' ', '<', '>', '^', '|', '"', '`', '{', '}', '_', '*', '!', '$', '&', '\'', '(', ')', '+', ',', ';', '=', '~', '-', ']', '\u{7f}'] {
+        p(format!("http://a{c}b.invalid/m/"), "");
+    }
+    // hosts left to the url crate: IPv6 literals, percent-encoding, IDNA
+    for h in ["[::1]", "[::1", "[::ffff:127.0.0.1]", "[1:2:3:4:5:6:7:8:9]", "[::1]x", "a[b.invalid", "%31%32%37.0.0.1", "a%zz.invalid", "a%2fb.invalid", "ö.invalid", "xn--nda.invalid", "xn--.invalid", "XN--nda.invalid", "ab--c.invalid", "\u{ff11}27.0.0.1", "a.%31"] {
+        p(format!("http://{h}/m/"), "");
+        p(format!("http://{h}:{port}/m/"), "");
+    }
+    // schemes and non-URLs
+    p(format!("ftp://{a}/m/"), ".c2pa");
+    p(format!("httpx://{a}/m/"), ".c2pa");
+    p(format!("http+x://{a}/m/"), ".c2pa");
+    p(format!("htt://{a}/m/"), ".c2pa");
+    p(format!("1http://{a}/m/"), ".c2pa");
+    p(format!("//{a}/m/"), ".c2pa");
+    p("m/".to_string(), ".c2pa");
+    p(format!("\u{a0}http://{a}/m/"), ".c2pa");
+    p("file:///tmp/".to_string(), ".c2pa");
+    p(format!("ws://{a}/m/"), ".c2pa");
+    p(format!("wss://{a}/m/"), ".c2pa");
+    p(format!(":http://{a}/m/"), ".c2pa");
+    p(format!("http ://{a}/m/"), ".c2pa");
+    p(format!("ht tp://{a}/m/"), ".c2pa");
+    p(format!("http\u{e9}://{a}/m/"), ".c2pa");
+    p("http".to_string(), "");
+    p("https".to_string(), ":");
+    p("data:text/plain,".to_string(), "");
+    p("self#jumbf=/c2pa/".to_string(), "");
+    f.push((" ".to_string(), Some(' '), " ".to_string()));
+    N_FIXED_URL_FORMS.store(f.len() as u32, Ordering::SeqCst);
+    // random compositions
+    let lead = ["", "", "", " ", "\t", "\n ", "\r"];
+    let scheme = ["http", "http", "https", "HTTP", "hTTps", "ftp", "htt", "ht\ttp", "https+", "1http", "ws", "file"];
+    let slashes = ["//", "//", "", "/", "///", "\\", "/\\", "\\\\", "/\t/"];
+    let user = ["", "", "", "u@", "u:p@", "@", "a@b@", "u:@"];
+    let host = [
+        "127.0.0.1", "127.0.0.1", "localhost", "LOCALHOST", "127.1", "0x7f.1", "1.2.3.4.5", "a.1", "a.1.", "0", "08", "0x", "256.1", "a b", "a_b", "a<b", "a^", "", ".", "a..b", "h\tost", "[::1]", "[::1", "a%41", "xn--a", "a--b", "ab--c", "\u{e9}", "4294967295", "4294967296", "1.2.3.0x", "a.0x",
+    ];
+    let ports = ["", "", "", ":", ":80", ":65535", ":65536", ":0", ":8a", ":00000000080", ": 1", ":1\t2"];
+    let tail = ["/", "/m/", "/m/\tx", "?q=", "#f", "\\p", "/ /", "/..//", "?#", "/%zz"];
+    let trail = ["", "", "", " ", "\n", "\t \r"];
+    let stray = [' ', '\t', ':', '/', '\\', '@', '[', ']', '%', '#', '?', '.', '0', 'x', 'A', '-', '\u{7f}', '\u{e9}', '"', '<'];
+    for _ in 0..n_random {
+        let mut pre = format!("{}{}:{}{}{}{}{}", rng.pick(&lead), rng.pick(&scheme), rng.pick(&slashes), rng.pick(&user), rng.pick(&host), rng.pick(&ports), rng.pick(&tail));
+        if rng.below(3) == 0 {
+            let cs: Vec<char> = pre.chars().collect();
+            let at = rng.below(cs.len() as u64 + 1) as usize;
+            let mut n: Vec<char> = cs[..at].to_vec();
+            if rng.below(2) == 0 || at >= cs.len() {
+                n.push(*rng.pick(&stray)); // insert
+                n.extend_from_slice(&cs[at..]);
+            } else {
+                n.extend_from_slice(&cs[at + 1..]); // delete
+            }
+            pre = n.into_iter().collect();
+        }
+        f.push((pre, Some('x'), rng.pick(&trail).to_string()));
+    }
+    f
+}
+
+fn make_assets(w: &World, run: &mut Run, rng: &mut Rng, n_random: usize) -> Vec<Asset> {
     let mut v: Vec<Asset> = vec![];
     let base = w.sh.base.clone();
     let mut add = |v: &mut Vec<Asset>, name: &str, fmt: &'static str, remote: Option<String>, no_embed: bool, cert: usize, stapled: u8, inner: Option<usize>| {
@@ -1122,6 +1370,34 @@ fn make_assets(w: &World, run: &mut Run) -> Vec<Asset> {
             v.push(Asset { name: "png-broken-both".into(), fmt: png, bytes: Arc::new(o), emb: "!".into(), xmp, rem });
         }
     }
+    // references in the forms `url::Url::parse` accepts or rejects (byte-patched into the XMP of a
+    // remote-only asset in XML-escaped form, padded to the length of the template's URL)
+    let tpl_url = format!("{base}/m/{}.c2pa", "u".repeat(150));
+    add(&mut v, "urlform-template", jpg, Some(tpl_url.clone()), true, 0, 0, None);
+    let mut built = 0usize;
+    if let Some(tpl) = v.iter().find(|a| a.name == "urlform-template").map(|a| (a.bytes.clone(), a.rem.clone())) {
+        let forms = url_forms(&base, rng, n_random);
+        for (k, (pre, pad, suf)) in forms.iter().enumerate() {
+            let fixed = xml_attr_escape(pre).len() + xml_attr_escape(suf).len();
+            if fixed > tpl_url.len() || (fixed < tpl_url.len() && pad.is_none()) {
+                run.notes.push(format!("url form {k} ({pre:?}…{suf:?}) does not fit the template"));
+                continue;
+            }
+            let raw = format!("{pre}{}{suf}", pad.map_or(String::new(), |c| c.to_string().repeat(tpl_url.len() - fixed)));
+            let enc = xml_attr_escape(&raw);
+            if enc.len() != tpl_url.len() || raw.is_empty() {
+                continue;
+            }
+            let Some(bytes) = patch_bytes(&tpl.0, tpl_url.as_bytes(), enc.as_bytes()) else { continue };
+            // nothing is registered with the recorder for these URLs: a fetch is answered 404
+            v.push(Asset { name: format!("urlform-{k:03}"), fmt: jpg, bytes: Arc::new(bytes), emb: "-".into(), xmp: Some(raw), rem: "-".into() });
+            built += 1;
+        }
+        run.obligations.insert("url-form-assets-built".into(), built >= 80);
+        let _ = tpl.1;
+    } else {
+        run.obligations.insert("url-form-assets-built".into(), false);
+    }
     let building = w.drain();
     run.obligations.insert("no-request-while-building-assets-with-fetching-off".into(), building.is_empty());
     if !building.is_empty() {
@@ -1180,8 +1456,8 @@ fn bools() -> [bool; 2] {
     [false, true]
 }
 
-pub fn run(run: &mut Run, _rng: &mut Rng) {
-    run.rule = "exhaustive products of the settings that gate requests (remote_manifest_fetch, ocsp_fetch, certificate_status_fetch x certificate_status_should_override, auto_timestamp_assertion.{enabled,skip_existing,fetch_scope}, verify_after_sign) x signer (TSA URL, certificate with 0/1/2 OCSP responders, stapled OCSP) x asset (embedded / remote-only / both / none / non-http reference / nested ingredient; JPEG and PNG) x operation (read, sign, ingredient import + sign, two ingredients, edit with automatic parent) x transport answers (200 / 404 / transport error per request class), sync and async API. non-trivial = the operation involves something that some setting could turn into a request (remote reference, certificate naming an OCSP responder, signer TSA URL); distinct by request line".to_string();
+pub fn run(run: &mut Run, rng: &mut Rng) {
+    run.rule = "exhaustive products of the settings that gate requests (remote_manifest_fetch, ocsp_fetch, certificate_status_fetch x certificate_status_should_override, auto_timestamp_assertion.{enabled,skip_existing,fetch_scope}, verify_after_sign) x signer (TSA URL, certificate with 0/1/2 OCSP responders, stapled OCSP) x asset (embedded / remote-only / both / none / non-http reference / nested ingredient; JPEG and PNG) x operation (read, sign, ingredient import + sign, two ingredients, edit with automatic parent) x transport answers (200 / 404 / transport error per request class), sync and async API; plus ~200 fixed and 300 (quick) / 2000 (thorough) random reference forms (white space and control characters, scheme case, missing or extra slashes, back-slashes, userinfo, ports, IPv4 number notations, forbidden host code points, IPv6 / percent-encoded / IDNA hosts, other schemes) byte-patched into a remote-only asset and read with fetching off and on; plus the signer built from `signer.local` + `cawg_x509_signer.local` settings with a TSA URL on either, both or none. non-trivial = the operation involves something that some setting could turn into a request (remote reference, certificate naming an OCSP responder, signer TSA URL); distinct by request line".to_string();
     let thorough = run.thorough();
     if std::env::var("C28_DEBUG").is_ok() {
         std::panic::set_hook(Box::new(|i| eprintln!("panic: {i}")));
@@ -1219,7 +1495,7 @@ pub fn run(run: &mut Run, _rng: &mut Rng) {
     };
     // the listener's TSA behaviour follows the env of the case
     let tsa_follow = tsa_mode.clone();
-    let assets = make_assets(&w, run);
+    let assets = make_assets(&w, run, rng, if thorough { 2000 } else { 300 });
     if std::env::var("C28_DEBUG").is_ok() {
         eprintln!("notes: {:?}", run.notes);
     }
@@ -1255,11 +1531,11 @@ pub fn run(run: &mut Run, _rng: &mut Rng) {
             run.notes.push(format!("harness panic in case {op:?} {}: {p}", s.line()));
         }
     };
-    let sg0 = Sg { tsa: false, cert: 0, stapled: 0 };
+    let sg0 = Sg { tsa: false, cert: 0, stapled: 0, cawg: None };
 
     // ---- read: relevant settings rf x of x so; all assets; the other settings at both extremes
     let others = [S::default(), S { sf: 2, at: true, sk: false, scp: true, va: false, di: false, ..S::default() }];
-    for a in &assets {
+    for a in assets.iter().filter(|a| !a.name.starts_with("urlform-")) {
         for rf in bools() {
             for of in bools() {
                 for so in 0..3u8 {
@@ -1284,7 +1560,7 @@ pub fn run(run: &mut Run, _rng: &mut Rng) {
         let mut v = vec![];
         for tsa in bools() {
             for (cert, stapled) in [(0, 0u8), (1, 0), (2, 0), (0, 1), (0, 2)] {
-                v.push(Sg { tsa, cert, stapled });
+                v.push(Sg { tsa, cert, stapled, cawg: None });
             }
         }
         v
@@ -1343,7 +1619,7 @@ pub fn run(run: &mut Run, _rng: &mut Rng) {
         let a = by(k);
         for s in &full {
             for tsa in bools() {
-                let sg = Sg { tsa, cert: 0, stapled: 0 };
+                let sg = Sg { tsa, cert: 0, stapled: 0, cawg: None };
                 do_case(run, &mut seen, Op::Import { explicit: false }, false, *s, EnvM::default(), sg, &[a]);
                 if thorough {
                     do_case(run, &mut seen, Op::Import { explicit: false }, true, *s, EnvM::default(), sg, &[a]);
@@ -1362,7 +1638,7 @@ pub fn run(run: &mut Run, _rng: &mut Rng) {
                     for tsa in bools() {
                         for rf in bools() {
                             let s = S { rf, at, sk, scp, ..S::default() };
-                            let sg = Sg { tsa, cert: 0, stapled: 0 };
+                            let sg = Sg { tsa, cert: 0, stapled: 0, cawg: None };
                             for &m in modes {
                                 for ex in bools() {
                                     do_case(run, &mut seen, Op::Import { explicit: ex }, m, s, EnvM::default(), sg, &[a]);
@@ -1387,7 +1663,7 @@ pub fn run(run: &mut Run, _rng: &mut Rng) {
         for sk in bools() {
             for scp in bools() {
                 let s = S { at, sk, scp, ..S::default() };
-                let sg = Sg { tsa: true, cert: 0, stapled: 0 };
+                let sg = Sg { tsa: true, cert: 0, stapled: 0, cawg: None };
                 let pairs: &[(&str, &str)] = if thorough { &[("emb-aia2", "nested"), ("nested", "emb-aia1-ts"), ("rem-aia1", "emb-aia2")] } else { &[("nested", "emb-aia1-ts")] };
                 for (k1, k2) in pairs {
                     do_case(run, &mut seen, Op::Import2, false, s, ts_ok, sg, &[by(k1), by(k2)]);
@@ -1411,7 +1687,7 @@ pub fn run(run: &mut Run, _rng: &mut Rng) {
         let a = by(k);
         for s in &grid {
             for tsa in bools() {
-                let sg = Sg { tsa, cert: 0, stapled: 0 };
+                let sg = Sg { tsa, cert: 0, stapled: 0, cawg: None };
                 for &m in modes {
                     do_case(run, &mut seen, Op::Import { explicit: false }, m, *s, EnvM::default(), sg, &[a]);
                 }
@@ -1439,13 +1715,47 @@ pub fn run(run: &mut Run, _rng: &mut Rng) {
     // edit (automatic parent) and two ingredients over the grid
     for s in &grid {
         for tsa in bools() {
-            let sg = Sg { tsa, cert: 1, stapled: 0 };
+            let sg = Sg { tsa, cert: 1, stapled: 0, cawg: None };
             for &m in modes {
                 for k in ["emb-aia1", "rem-aia1", "both-aia1", "none", "nested", "png-rem"] {
                     do_case(run, &mut seen, Op::Edit, m, *s, EnvM::default(), sg, &[by(k)]);
                 }
                 for (k1, k2) in [("emb-aia2", "rem-aia1"), ("rem-aia1", "emb-aia2"), ("rem-aia1", "rem-aia2"), ("none", "nested"), ("ref-ftp", "both-aia1")] {
                     do_case(run, &mut seen, Op::Import2, m, *s, EnvM::default(), sg, &[by(k1), by(k2)]);
+                }
+            }
+        }
+    }
+
+    // ---- reference forms: is_valid_remote_url (url crate) and http::Request::get (http crate) on
+    // references that are not of the plain form scheme://host/path. Read with fetching off / on
+    // (the recorder knows none of these URLs: a fetch is answered 404), sync and async; the fixed
+    // forms also as ingredient.
+    let nf = EnvM { mr: 1, ..EnvM::default() };
+    for a in assets.iter().filter(|a| a.name.starts_with("urlform-") && a.name != "urlform-template") {
+        let fixed = a.name["urlform-".len()..].parse::<usize>().is_ok_and(|k| k < N_FIXED_URL_FORMS.load(Ordering::SeqCst) as usize);
+        for rf in bools() {
+            let s = S { rf, ..S::default() };
+            do_case(run, &mut seen, Op::Read, false, s, nf, sg0, &[a]);
+            if fixed {
+                do_case(run, &mut seen, Op::Read, true, s, nf, sg0, &[a]);
+                do_case(run, &mut seen, Op::Import { explicit: false }, false, s, nf, sg0, &[a]);
+            }
+        }
+    }
+
+    // ---- the signer the Context builds from its settings, with and without a TSA URL on the C2PA
+    // signer and on the CAWG X.509 identity signer (`cawg_x509_signer.local.tsa_url`)
+    for tsa in bools() {
+        for ctsa in bools() {
+            for va in bools() {
+                for tr in [1u8, 0] {
+                    if tr == 0 && !(tsa || ctsa) {
+                        continue;
+                    }
+                    let s = S { va, ..S::default() };
+                    let sg = Sg { tsa, cert: 2, stapled: 0, cawg: Some(ctsa) };
+                    do_case(run, &mut seen, Op::SignSettings, false, s, EnvM { tr, ..EnvM::default() }, sg, &[none]);
                 }
             }
         }
